@@ -1,6 +1,7 @@
 import SLE.Driver.Disasm
 import SLE.Driver.Containers
 import SLE.Driver.Value
+import SLE.Driver.Types
 /-! `sle_driver`: reads `family\tpayload\timpl_answer`, prints `model_answer\toracle_verdict`. -/
 open SLE.Driver
 
@@ -13,6 +14,7 @@ def handleLine (line : String) : String :=
       | "ds" => Containers.handleDs payload impl
       | "word" => Value.handleWord payload impl
       | "fold" => Value.handleFold payload impl
+      | "merge" => Types.handleMerge payload impl
       | _ => ("unknown-family", "ok")
     m ++ "\t" ++ o
   | _ => "bad-line\tok"
